@@ -1,6 +1,7 @@
 package PKGNAME
 
 import (
+	"go/token"
 	"fmt"
 	"reflect"
 	"unsafe"
@@ -76,4 +77,53 @@ func vfNoAlias(a, b interface{}) bool {
 		}
 	}
 	return true
+}
+
+func vfDeepEqual(a, b interface{}) bool { return reflect.DeepEqual(a, b) }
+
+func vfFieldValue(v interface{}, name string) (reflect.Value, bool) {
+	rv := reflect.ValueOf(v)
+	if !rv.IsValid() {
+		return rv, false
+	}
+	if rv.Kind() == reflect.Ptr {
+		if rv.IsNil() {
+			return rv, false
+		}
+		rv = rv.Elem()
+	}
+	if rv.Kind() != reflect.Struct {
+		return rv, false
+	}
+	f := rv.FieldByName(name)
+	return f, f.IsValid()
+}
+
+func vfField(v interface{}, name string) interface{} {
+	f, ok := vfFieldValue(v, name)
+	if !ok {
+		return nil
+	}
+	return f.Interface()
+}
+
+func vfFieldPos(v interface{}, name string) (token.Pos, bool) {
+	f, ok := vfFieldValue(v, name)
+	if !ok {
+		return 0, false
+	}
+	p, ok := f.Interface().(token.Pos)
+	return p, ok
+}
+
+func vfIsNil(v interface{}) bool {
+	if v == nil {
+		return true
+	}
+	rv := reflect.ValueOf(v)
+	switch rv.Kind() {
+	case reflect.Ptr, reflect.Slice, reflect.Map, reflect.Interface, reflect.Func:
+		return rv.IsNil()
+	}
+	return false
 }
